@@ -18,6 +18,11 @@ type lineLimitReader struct {
 	curLineLength int
 }
 
+// exceeded reports whether the current line has been refused.
+func (r *lineLimitReader) exceeded() bool {
+	return r.LineLimit > 0 && r.curLineLength > r.LineLimit
+}
+
 func (r *lineLimitReader) Read(b []byte) (int, error) {
 	if r.curLineLength > r.LineLimit && r.LineLimit > 0 {
 		return 0, ErrTooLongLine
